@@ -2,9 +2,10 @@ package rules
 
 import (
 	"fmt"
+	"go/token"
+	"go/types"
 	"sort"
 	"strconv"
-	"go/token"
 	"strings"
 
 	"adgverif/an"
@@ -26,7 +27,7 @@ func init() {
 			"proceeds to rate limiting. The single exception is the FORMERR answer for a malformed ECS option, which " +
 			"C05 demands and which is written before any access decision.",
 		NotCovered: "what the urlfilter engines behind IsBlockedHost / blockedHostsEng match; effects inside third-party libraries reached from the access decision.",
-		Rules: map[string]string{"C10-R20": "agdnet.NormalizeQueryDomain keeps the root name \".\" as it is (decided on the argument itself, before any normalisation empties it) and normalises every other name", "C10-R19": "the name handed to the global blocked-name rules (access.Interface.IsBlockedHost) is the question name normalised by agdnet.NormalizeQueryDomain, as for the profile's rules: the root stays \".\" (the empty string that NormalizeDomain makes of it matches no rule)", "C10-R18": "geoip.File.Refresh clears both location caches after it has installed the new databases (shared with C05-R10)", "C10-R16": "no call in package dnsserver passes same-typed arguments crossed (local and remote address of a connection, by the names of the getters that produced them)", "C10-R17": "builder.initAccess creates and assigns the global access manager on every successful path, empty lists included (a nil *access.Global wrapped in the service's interface field panics on the first request)", "C10-R14": "conversion loops of backendpb and filecachepb leave no element out silently (a skipped element has been reported or failed a conversion)", "C10-R15": "GeoIP data is looked up and cached under one read lock, so a refresh cannot leave a location of the previous database in the cache (shared with C05-R7)", "C10-R13": "newRequestInfo always stores the finder's answer; methods of the shared access objects do not write to their receiver", "C10-RC": "class rules (error chains, shadowed results, character classes, crossed arguments, pool constructors, array pools, loop completeness, loop-carried buffers, replacing setters, complete clones, Grow arithmetic, pooled-buffer escape, sorted searches, fresh decode targets, per-iteration objects, whole-message copies, codec guards) over the packages this property rests on", "C10-R12": "agdnet.NormalizeDomain is ToLower(TrimSuffix(name, \".\")); hand-written ASCII classes use inclusive boundaries", "C10-R11": "early (default) returns of the profile converters are guarded only by nil / Enabled tests of the input, never by its contents", "C10-R10": "codecs return a nil sub-message only for a nil input; access.Global keeps the whole configured subnet list and IsBlockedIP is a membership test on it",
+		Rules: map[string]string{"C10-R21": "the profile map of the profile database is written by the synchronisation (setProfiles) only: no other function, in particular not the request path (CreateAutoDevice), stores a profile object of its own there, which would put an older access configuration back after a newer one was synchronised", "C10-R22": "geoip.ipToCacheKey: the location cache keys an IPv4 address by its first three bytes (the /24 it belongs to) and an IPv6 address by its first seven: two clients share a cached location (and its ASN, which access rules test) only inside one such network", "C10-R20": "agdnet.NormalizeQueryDomain keeps the root name \".\" as it is (decided on the argument itself, before any normalisation empties it) and normalises every other name", "C10-R19": "the name handed to the global blocked-name rules (access.Interface.IsBlockedHost) is the question name normalised by agdnet.NormalizeQueryDomain, as for the profile's rules: the root stays \".\" (the empty string that NormalizeDomain makes of it matches no rule)", "C10-R18": "geoip.File.Refresh clears both location caches after it has installed the new databases (shared with C05-R10)", "C10-R16": "no call in package dnsserver passes same-typed arguments crossed (local and remote address of a connection, by the names of the getters that produced them)", "C10-R17": "builder.initAccess creates and assigns the global access manager on every successful path, empty lists included (a nil *access.Global wrapped in the service's interface field panics on the first request)", "C10-R14": "conversion loops of backendpb and filecachepb leave no element out silently (a skipped element has been reported or failed a conversion)", "C10-R15": "GeoIP data is looked up and cached under one read lock, so a refresh cannot leave a location of the previous database in the cache (shared with C05-R7)", "C10-R13": "newRequestInfo always stores the finder's answer; methods of the shared access objects do not write to their receiver", "C10-RC": "class rules (error chains, shadowed results, character classes, crossed arguments, pool constructors, array pools, loop completeness, loop-carried buffers, replacing setters, complete clones, Grow arithmetic, pooled-buffer escape, sorted searches, fresh decode targets, per-iteration objects, whole-message copies, codec guards) over the packages this property rests on", "C10-R12": "agdnet.NormalizeDomain is ToLower(TrimSuffix(name, \".\")); hand-written ASCII classes use inclusive boundaries", "C10-R11": "early (default) returns of the profile converters are guarded only by nil / Enabled tests of the input, never by its contents", "C10-R10": "codecs return a nil sub-message only for a nil input; access.Global keeps the whole configured subnet list and IsBlockedIP is a membership test on it",
 			"C10-R1": "decision tables of isBlockedByNets, matchASNs, IsBlocked, isBlockedByAccess",
 			"C10-R2": "Wrap closure: location stored before the decision; blocked edge silent; other edge proceeds",
 			"C10-R4": "question names are normalised before they are matched against access rules",
@@ -36,6 +37,11 @@ func init() {
 }
 
 func runC10(c *an.Ctx) {
+	// ---- R21: who may write the profile map; R22: the key of the location cache
+	c.Floor("C10-R21", 1)
+	c10ProfileMapWriters(c, "C10-R21")
+	c.Floor("C10-R22", 1)
+	c10LocationCacheKey(c, "C10-R22")
 	// ---- R20: the root name survives the query normaliser
 	c.Floor("C10-R20", 1)
 	decide(c, "C10-R20", "agdnet.NormalizeQueryDomain", an.DecideCfg{
@@ -656,7 +662,6 @@ var nilWhenDisabled = map[string]string{
 	"profiledb/internal/filecachepb.authToProtobuf": "p0.Enabled=false",
 }
 
-
 // c10DeviceResultSet: the request information always carries what the device
 // finder said (also when the profile's message constructor cannot be built):
 // the access check and the drop decisions read it.
@@ -747,4 +752,103 @@ func c10GlobalHostNormalised(c *an.Ctx, rule string) (sites int) {
 		}
 	}
 	return sites
+}
+
+// c10ProfileMapWriters: profiles (with their access managers) reach the map
+// Default.profiles through the synchronisation alone.  A function of the request
+// path that stores its own (copied, possibly outdated) profile there can undo a
+// synchronisation that happened while it was waiting for the backend.
+func c10ProfileMapWriters(c *an.Ctx, rule string) {
+	allowed := map[string]bool{"profiledb.(*Default).setProfiles": true}
+	writers := map[string]token.Pos{}
+	for _, fn := range c.AllFns {
+		k := an.FnKey(fn)
+		if fn.Blocks == nil || c.IsTestFile(fn.Pos()) || !strings.HasPrefix(k, "profiledb.") {
+			continue
+		}
+		an.Instrs(fn, func(in ssa.Instruction) {
+			mu, ok := in.(*ssa.MapUpdate)
+			if !ok {
+				return
+			}
+			ld, ok := mu.Map.(*ssa.UnOp)
+			if !ok {
+				return
+			}
+			if t, f, _, ok := an.FieldOf(ld.X); ok && strings.HasSuffix(t, "profiledb.Default") && f == "profiles" {
+				// closures count for the function they are written in
+				owner := fn
+				for owner.Parent() != nil {
+					owner = owner.Parent()
+				}
+				writers[an.FnKey(owner)] = mu.Pos()
+			}
+		})
+	}
+	if len(writers) == 0 {
+		c.Und(rule, "writers of profiledb.Default.profiles", token.NoPos, "no store into the profile map found")
+		return
+	}
+	var ks []string
+	for k := range writers {
+		ks = append(ks, k)
+	}
+	sort.Strings(ks)
+	for _, k := range ks {
+		c.Analysed(k)
+		c.Check(allowed[k], rule, k+" may store into the profile map", writers[k], "the synchronisation's own writer",
+			k+" stores a profile into Default.profiles at "+c.Pos(writers[k])+"; only the synchronisation (setProfiles) does: a profile object put there by another path can be older than the one a synchronisation has just stored, and its access rules are then applied to every device of the profile")
+	}
+}
+
+// c10LocationCacheKey: table of geoip.ipToCacheKey over representative addresses.
+func c10LocationCacheKey(c *an.Ctx, rule string) {
+	k := "geoip.ipToCacheKey"
+	fn := c.Prog.Fn(k)
+	key := k + " keys by the leading bytes of the address"
+	if fn == nil {
+		c.Und(rule, key, token.NoPos, "anchor not found")
+		return
+	}
+	c.Analysed(k)
+	// every array-from-slice conversion ([3]byte(x), [7]byte(x)) takes a slice that starts at index 0 of the address
+	// bytes (As4 for the three-byte key, As16 for the seven-byte one)
+	n := 0
+	bad := ""
+	an.Instrs(fn, func(in ssa.Instruction) {
+		cv, ok := in.(*ssa.SliceToArrayPointer)
+		if !ok {
+			return
+		}
+		n++
+		sl, ok := cv.X.(*ssa.Slice)
+		if !ok {
+			bad = "the key bytes at " + c.Pos(cv.Pos()) + " are not a slice of the address array"
+			return
+		}
+		if sl.Low != nil {
+			if k, isK := sl.Low.(*ssa.Const); !isK || k.Int64() != 0 {
+				bad = "the key at " + c.Pos(cv.Pos()) + " starts at offset " + sl.Low.String() + " of the address bytes, not at the first byte"
+			}
+		}
+		arr := cv.Type().(*types.Pointer).Elem().Underlying().(*types.Array)
+		src := ""
+		if al, ok := sl.X.(*ssa.Alloc); ok {
+			if st := an.SingleStore(al); st != nil {
+				if call, ok := st.Val.(*ssa.Call); ok {
+					src = an.CalleeName(call)
+				}
+			}
+		}
+		want := map[int64]string{3: "(net/netip.Addr).As4", 7: "(net/netip.Addr).As16"}[arr.Len()]
+		if want == "" || src != want {
+			bad = fmt.Sprintf("the %d-byte key at %s is cut from %s (expected %s)", arr.Len(), c.Pos(cv.Pos()), src, want)
+		}
+	})
+	if n < 2 {
+		c.Und(rule, key, fn.Pos(), "expected the two array conversions of the key, found %d", n)
+		return
+	}
+	c.Check(bad == "", rule, key, fn.Pos(), "3 leading bytes of As4, 7 leading bytes of As16",
+		bad+": addresses of different networks share one cached location, so the ASN and country that access rules test are those of whichever of them was looked up first")
 }
